@@ -173,8 +173,25 @@ def run(ctx):
                 br, pu, ind = float(rng.uniform(0.3, 0.95)), float(rng.choice([1.0, rng.uniform(0.6, 0.99)])), float(rng.uniform(0.2, 0.95))
             if br < 1 and (pu < 1 or ind < 1):
                 ctx.bucket("two_bunched_modes_dim_imperfect")
+        # the settings in other numeric types of (as good as) the same value: numpy floats of both widths, ints and
+        # numpy ints for 0 / 1; the reference uses exactly the value handed over
+        forms = {}
+        vals = {"br": br, "pu": pu, "ind": ind, "thr": thr}
+        for nm_ in ("br", "pu", "ind", "thr"):
+            v_ = vals[nm_]
+            if rng.random() < 0.08:
+                opts_ = [np.float64, np.float32] + ([int, np.int64, np.uint8] if v_ in (0.0, 1.0) else [])
+                ty_ = opts_[int(rng.integers(len(opts_)))]
+                w_ = ty_(v_)
+                if ty_ is np.float32 and nm_ == "pu" and not 0.5 < float(w_) <= 1:
+                    continue
+                vals[nm_] = w_
+                forms[nm_] = ty_.__name__
+                ctx.bucket("source_setting_as:" + ty_.__name__)
+        br_a, pu_a, ind_a, thr_a = vals["br"], vals["pu"], vals["ind"], vals["thr"]
+        br, pu, ind, thr = float(br_a), float(pu_a), float(ind_a), float(thr_a)
         backend = str(rng.choice(["permanent", "slos"]))
-        case = {"circuit": log, "input": occ, "source": {"brightness": br, "purity": pu,
+        case = {"circuit": log, "input": occ, "setting_types": forms, "source": {"brightness": br, "purity": pu,
                 "indistinguishability": ind, "threshold": thr}, "backend": backend}
         nonideal = (br < 1, pu < 1, ind < 1)
         bunched = max(full_occ, default=0) > 1
@@ -186,7 +203,7 @@ def run(ctx):
         if hph: ctx.bucket("herald_photons")
         ctx.bucket(backend)
         try:
-            src = emu.Source(purity=pu, brightness=br, indistinguishability=ind, probability_threshold=thr)
+            src = emu.Source(purity=pu_a, brightness=br_a, indistinguishability=ind_a, probability_threshold=thr_a)
             smp = emu.Sampler(c, State(occ), source=src, backend=backend)
             dist = {tuple(s): p for s, p in smp.probability_distribution.items()}
         except Exception as e:  # noqa: BLE001
